@@ -242,6 +242,21 @@ def gen_spec(rng, fmt, natoms=None):
         if fmt == "pdb" and rng.random() < 0.3:
             a["label"] = rng.choice(["A1", "Ca", "X", "O12", "Na1+"])
         atoms.append(a)
+    if natoms >= 2 and rng.random() < 0.25:
+        # symmetry-related sites: mirror / two-fold images carry equal and opposite off-diagonal terms, so a component
+        # that is non-zero on every atom sums to exactly zero over the structure
+        base = None
+        while base is None:
+            g = gen_adp(rng, cell)
+            if g[0] == "aniso" and all(fx(v) != 0.0 for v in g[1][3:]):
+                base = [fx(v) for v in g[1]]
+        flips = rng.choice([(-1, -1, 1), (-1, 1, -1), (1, -1, -1)])
+        for k, a in enumerate(atoms):
+            if k == natoms - 1 and natoms % 2 == 1:
+                a["adp"] = ["aniso", [hx(v) for v in base[:3]] + [hx(0.0)] * 3]
+            else:
+                sg = flips if k % 2 else (1, 1, 1)
+                a["adp"] = ["aniso", [hx(v) for v in base[:3]] + [hx(sg[i] * base[3 + i]) for i in range(3)]]
     title = rng.choice(TITLES)
     spec = {"cls": "Structure", "title": title, "cell": [hx(v) for v in cell], "atoms": atoms}
     if lat:
